@@ -271,6 +271,34 @@ where
   }
 }
 
+/// Upper bound on a single up-front allocation sized by a length taken from
+/// the wire. Longer items grow as their content actually arrives, so a CBOR
+/// head announcing a huge length cannot make the decoder allocate it.
+const MAX_PREALLOC: usize = 4096;
+
+/// Read exactly `len` bytes, allocating only as the bytes arrive.
+fn read_exact_len<R: ciborium_io::Read>(
+  decoder: &mut Decoder<R>,
+  len: usize,
+) -> Result<Vec<u8>, DecodeError>
+where
+  ciborium_ll::Error<R::Error>: Into<DecodeError>,
+{
+  let mut buf = Vec::with_capacity(len.min(MAX_PREALLOC));
+  let mut remaining = len;
+  while remaining > 0 {
+    let step = remaining.min(MAX_PREALLOC);
+    let mut chunk = vec![0u8; step];
+    decoder.read_exact(&mut chunk).map_err(|e| {
+      let io_err: ciborium_ll::Error<R::Error> = ciborium_ll::Error::Io(e);
+      io_err.into()
+    })?;
+    buf.extend_from_slice(&chunk);
+    remaining -= step;
+  }
+  Ok(buf)
+}
+
 fn read_bytes<R: ciborium_io::Read>(
   decoder: &mut Decoder<R>,
   len: Option<usize>,
@@ -279,14 +307,7 @@ where
   ciborium_ll::Error<R::Error>: Into<DecodeError>,
 {
   match len {
-    Some(n) => {
-      let mut buf = vec![0u8; n];
-      decoder.read_exact(&mut buf).map_err(|e| {
-        let io_err: ciborium_ll::Error<R::Error> = ciborium_ll::Error::Io(e);
-        io_err.into()
-      })?;
-      Ok(buf)
-    }
+    Some(n) => read_exact_len(decoder, n),
     None => {
       // Indefinite-length bytes: read segments until break
       let mut result = Vec::new();
@@ -316,11 +337,7 @@ where
 {
   match len {
     Some(n) => {
-      let mut buf = vec![0u8; n];
-      decoder.read_exact(&mut buf).map_err(|e| {
-        let io_err: ciborium_ll::Error<R::Error> = ciborium_ll::Error::Io(e);
-        io_err.into()
-      })?;
+      let buf = read_exact_len(decoder, n)?;
       String::from_utf8(buf).map_err(|_| DecodeError::Syntax(decoder.offset()))
     }
     None => {
@@ -352,7 +369,7 @@ where
 {
   match len {
     Some(n) => {
-      let mut items = Vec::with_capacity(n);
+      let mut items = Vec::with_capacity(n.min(MAX_PREALLOC));
       for _ in 0..n {
         items.push(decode_value(decoder)?);
       }
@@ -384,7 +401,7 @@ where
 {
   match len {
     Some(n) => {
-      let mut entries = Vec::with_capacity(n);
+      let mut entries = Vec::with_capacity(n.min(MAX_PREALLOC));
       for _ in 0..n {
         let key = decode_value(decoder)?;
         let val = decode_value(decoder)?;
